@@ -689,3 +689,71 @@ def check_header_depth(ctx):
                            'deepest supported level has no header left, '
                            'format_report raises and nothing is written')
     ctx.floor('HEADER-DEPTH', n, 1, 'header() calls of Rst')
+
+
+# -------------------------------------------------------- CLEAR-COMPLETE ---
+
+STATE_MUTATORS = {'append', 'extend', 'add', 'update', 'setdefault',
+                  'insert', 'pop', 'remove', 'discard', 'appendleft'}
+
+
+def check_clear_complete(ctx):
+    """format_report() starts with clear() so that an Rst object can format
+    several reports: everything the formatting methods ACCUMULATE on the
+    object (pages, trees, plots - and any later bookkeeping such as "pages
+    that already declare the highlight role") must be reset there.  State
+    that survives clear() makes the second report depend on the first one:
+    its pages lose what the first report was deemed to have written."""
+    program = ctx.program
+    klass = program.cls(f'{RST}:Rst')
+    program.consulted.add(klass.module.relpath)
+    clear = klass.methods.get('clear')
+    if clear is None:
+        raise AnalysisError('Rst.clear not found')
+    reset = set()
+    for node in walk_local(clear.node):
+        if isinstance(node, ast.Assign):
+            for tgt in node.targets:
+                if isinstance(tgt, ast.Attribute) and dotted(
+                        tgt.value) == 'self':
+                    reset.add(tgt.attr)
+        if isinstance(node, ast.Call) and call_name(node) == 'clear' and \
+                isinstance(receiver(node), ast.Attribute) and dotted(
+                    receiver(node).value) == 'self':
+            reset.add(receiver(node).attr)
+    mutated = {}
+    for meth in klass.methods.values():
+        if meth.name in ('__init__', 'clear'):
+            continue
+        for node in walk_local(meth.node):
+            attr = None
+            if isinstance(node, ast.Call) and call_name(node) in \
+                    STATE_MUTATORS:
+                recv = receiver(node)
+                while isinstance(recv, ast.Subscript):
+                    recv = recv.value
+                if isinstance(recv, ast.Attribute) and dotted(
+                        recv.value) == 'self':
+                    attr = recv.attr
+            elif isinstance(node, (ast.Assign, ast.AugAssign)):
+                tgts = node.targets if isinstance(node, ast.Assign) else \
+                    [node.target]
+                for tgt in tgts:
+                    base = tgt
+                    while isinstance(base, ast.Subscript):
+                        base = base.value
+                    if base is not tgt and isinstance(
+                            base, ast.Attribute) and dotted(
+                                base.value) == 'self':
+                        attr = base.attr
+            if attr is not None:
+                mutated.setdefault(attr, (meth, node))
+    ctx.floor('CLEAR-COMPLETE', len(mutated), 2, 'attributes accumulated by '
+              'the formatting methods of Rst')
+    for attr, (meth, node) in sorted(mutated.items()):
+        ctx.decide('CLEAR-COMPLETE', meth,
+                   f'self.{attr} (filled in {meth.name}) is reset by '
+                   f'clear()', attr in reset, at=meth.where(node),
+                   detail=None if attr in reset else
+                   'survives clear(): the second report formatted by the '
+                   'same object starts from the state the first one left')
